@@ -108,7 +108,7 @@ def _corrupt(data: Any, how: str, where: int) -> Any:
     return data
 
 
-def make_harness(n_calls: int, first_kind: str):
+def make_harness(n_calls: int, first_kind: str, later_kinds: list[str] | None = None, trees: list[int] | None = None):
     def harness(e):
         import msgpack
         import orjson
@@ -119,14 +119,14 @@ def make_harness(n_calls: int, first_kind: str):
 
         reset_all()
         _Hook.reset()
-        tno = e.choice(len(TREES), "tree")
+        tno = e.pick(trees or list(range(len(TREES))), "tree")
         root = build(TREES[tno])
         baseline = root.as_dict()
         clean = {"as_obj": baseline, "from_json": root.to_json(), "from_msgpck": root.to_msgpck(), "from_yaml": root.to_yaml()}
         history: list[str] = []
         scenario: dict[str, Any] = {"tree": describe(TREES[tno]), "calls": history}
         for step in range(n_calls):
-            kind = first_kind if step == 0 else e.pick(SER + DESER, f"call{step}")
+            kind = first_kind if step == 0 else e.pick(later_kinds or (SER + DESER), f"call{step}")
             b_skip, b_sort, b_opt = e.bool(f"skip_class{step}"), e.bool(f"sort_keys{step}"), e.bool(f"optimized_sources{step}")
             dialect = e.pick([None, "explorer", "test"], f"dialect{step}")
             opts: dict[str, Any] = {SerializationOption.SKIP_CLASS: b_skip, SerializationOption.SORT_KEYS: b_sort, SOURCE_OPTIMIZED_SERIALIZATION_KEY: b_opt}
@@ -199,13 +199,14 @@ def _decided(e, b) -> bool:
 
 
 def spec(tier: str, seed: int) -> Spec:
-    n = 1 if tier == "quick" else 2
+    n = 2
+    later = ["as_dict"] if tier == "quick" else None
     var = "lazy: SKIP_CLASS, SORT_KEYS, optimized sources per call, fail@k per nested object; selectors: call kinds, dialect, corruption, tree"
-    fams = [Family(f"{n}-calls-first-{k}", make_harness(n, k), variables=var) for k in SER + DESER]
+    fams = [Family(f"{n}-calls-first-{k}-tree{t}", make_harness(n, k, later, [t]), variables=var) for k in SER + DESER for t in range(len(TREES))]
     return Spec(
         families=fams,
         functions=FUNCTIONS,
-        bounds={"calls_per_sequence": f"{n} option-carrying call(s), each followed by a default as_dict()", "trees": len(TREES), "options": "SKIP_CLASS, SORT_KEYS, SOURCE_OPTIMIZED_SERIALIZATION lazily; dialect none/explorer/test", "fault_schedule": "failure at any nested hooked object (<= 3 per tree)", "corruptions": ["unknown type tag", "missing id"]},
+        bounds={"calls_per_sequence": "2 option-carrying calls (quick: the second is always as_dict with options), each followed by a default as_dict()", "trees": len(TREES), "options": "SKIP_CLASS, SORT_KEYS, SOURCE_OPTIMIZED_SERIALIZATION lazily; dialect none/explorer/test", "fault_schedule": "failure at any nested hooked object (<= 3 per tree)", "corruptions": ["unknown type tag", "missing id"]},
         rule="a case = one path = (tree, call sequence, value of every option bit and fault bit the real code consulted, dialect, corruption); distinct by that tuple; non-trivial = at least one option or fault consulted",
         variables="lazy booleans (options, fault schedule); selectors (call kinds, dialect, corruption, tree)",
         assumptions=["key order is not checked for YAML output (the YAML dumper sorts keys itself)", "a custom mashumaro dialect is not varied (the three front-ends already pass their own)"],
